@@ -128,12 +128,15 @@ Apply(r) == head' = r.head /\ tail' = r.tail /\ ent' = r.ent
 
 \* a block by `who` starts: validateAuthorityProposer. offs = what the scheduler's Updates switches off (its choice is
 \* the scheduler's business, Scheduler.tla; here: any set of active proposers other than the signer)
-RECURSIVE UpdAll(_, _, _, _)
-UpdAll(S, a, st, c) ==        \* authority.Update + candidates.Update for every node of S; st = [head, tail, ent]
-  IF S = {} THEN [st |-> st, c |-> c]
-  ELSE LET n == CHOOSE n \in S : TRUE
-           st1 == IF IsLinked(st.ent[n]) THEN [st EXCEPT !.ent[n].act = a] ELSE st
-       IN UpdAll(S \ {n}, a, st1, CandUpdate(c, n, a))
+\* authority.Update + candidates.Update for every node of S. (No recursion here: TLC re-evaluates lazy operator arguments
+\* at every level, which is exponential when an argument mentions the previous one twice.)  authority.Update refuses a
+\* node without links (the only listed one) while candidates.Update does not; the flags do not touch the links, so the
+\* order of the updates is immaterial.
+EntUpd(offs, on) == [x \in Nodes |-> IF x \in offs /\ IsLinked(ent[x]) THEN [ent[x] EXCEPT !.act = FALSE]
+                                     ELSE IF x \in on /\ IsLinked(ent[x]) THEN [ent[x] EXCEPT !.act = TRUE] ELSE ent[x]]
+CandUpd(c, offs, on) == [c EXCEPT !.list = [i \in DOMAIN c.list |->
+                            IF c.list[i].n \in offs THEN [c.list[i] EXCEPT !.act = FALSE]
+                            ELSE IF c.list[i].n \in on THEN [c.list[i] EXCEPT !.act = TRUE] ELSE c.list[i]]]
 
 BeginBlock(who, offs) ==
   /\ phase = "between"
@@ -141,12 +144,9 @@ BeginBlock(who, offs) ==
          c1 == [c0 EXCEPT !.sat = SatOf(c0)]
          ps == Pick(c1)
          on == IF who \in ActiveOf(ps) THEN {} ELSE {who}
-         st0 == [head |-> head, tail |-> tail, ent |-> ent]
-         r1 == UpdAll(offs, FALSE, st0, c1)
-         r2 == UpdAll(on, TRUE, r1.st, r1.c)
      IN /\ who \in NodesOf(ps)                             \* "unauthorized block proposer" otherwise
         /\ offs \subseteq ActiveOf(ps) \ {who}
-        /\ ent' = r2.st.ent /\ cur' = r2.c
+        /\ ent' = EntUpd(offs, on) /\ cur' = CandUpd(c1, offs, on)
   /\ signer' = who /\ phase' = "in" /\ evA' = FALSE /\ evE' = FALSE
   /\ UNCHANGED <<head, tail, bal, mbp, alist, revoked, cache>>
 
